@@ -86,7 +86,7 @@ def h_exec_report(I, prefix, exec_idx):
     left, so the body runs outside the tracer (the helper's MagicMock wiring is slow under it)."""
     st_i = I.choice("ord_status", len(STATUSES))
     c_i, l_i, la_i, oq_i, px_i = (I.choice("cum_qty", 5), I.choice("leaves_qty", 4), I.choice("last_qty", 2),
-                                  I.choice("order_qty", 2), I.choice("price", 2))
+                                  I.choice("order_qty", 3), I.choice("price", 2))
     orig = I.bool("report_under_orig_clord_id")
     return I.untraced(lambda: _exec_report_body(I, prefix, exec_idx, st_i, c_i, l_i, la_i, oq_i, px_i, bool(orig)))
 
@@ -102,7 +102,7 @@ def _exec_report_body(I, prefix, exec_idx, st_i, c_i, l_i, la_i, oq_i, px_i, ori
     LQ = (nan, 0, 7, 10)
     leaves = LQ[l_i]
     last = (nan, 3)[la_i]
-    oq = (nan, 12)[oq_i]
+    oq = (nan, 12, 8)[oq_i]
     px = (nan, 101.5)[px_i]
     use_orig = orig and o.orig_clord_id is not None
     clord = o.orig_clord_id if use_orig else o.clord_id
@@ -333,7 +333,7 @@ def cells(tier):
             out.append(Cell(f"exec-report/state{prefix}/{EXEC_TYPES[ei].name}", (lambda I, p=prefix, ei=ei: h_exec_report(I, p, ei)),
                             dict(order_state=["created", "pending-new sent", "pending-new", "new", "partially filled", "cancel requested"][prefix],
                                  exec_type=EXEC_TYPES[ei].name, ord_status="every member (symbolic)", cum_qty="nan/0/3/10/12", leaves_qty="nan/0/7/10",
-                                 last_qty="nan/3", order_qty="nan/12", price="nan/101.5", clord_id="current / original"),
+                                 last_qty="nan/3", order_qty="nan/12/8", price="nan/101.5", clord_id="current / original"),
                             goals=["refused-by-helper"], budget_s=2400))
     out.append(Cell("cancel-reject", h_reject, dict(order="new / partially filled", request="cancel / replace", ord_status="every member (symbolic)"), goals=["fabricated"]))
     out.append(Cell("session-messages", h_session_msgs, dict(factories=["msg_logon", "msg_heartbeat", "msg_test_request", "msg_sequence_reset", "msg_resend_request"],
